@@ -27,6 +27,9 @@ MUTATORS = {"push", "insert", "extend", "append", "push_str", "insert_str", "sor
             "execute", "send", "last_mut", "sort_by", "sort_by_key", "extend_from_slice", "clone_into"}
 
 
+CLOSURE_LOOPS = {"map", "filter", "filter_map", "flat_map", "inspect", "for_each", "any", "all", "find", "position", "take_while", "skip_while"}
+
+
 class Eval:
     def __init__(self, facts, inline_depth=2, inline=None):
         self.facts = facts
@@ -168,6 +171,43 @@ class Eval:
                 if value and isinstance(ve, tuple) and ve[:1] == ("panic",):
                     return ("match", init, ((key, v), ("_", ve)))   # the refusal is a value of the block, like a panicking match arm
                 return v
+            # `let P = match X { A => v, B => continue / return .. };`: the rest of the block runs under arm A
+            if s["k"] == "LetStmt" and "init" in s and "else" not in s:
+                mi = s["init"]
+                while isinstance(mi, dict) and mi.get("k") in ("DropTemps", "Use"):
+                    mi = mi["e"]
+                if isinstance(mi, dict) and mi.get("k") == "Match" and mi.get("src") == "Normal":
+                    live = [a for a in mi["arms"] if not diverges(a["body"], panics=False)]
+                    dead = [a for a in mi["arms"] if diverges(a["body"], panics=False)]
+                    if dead and len(live) == 1:
+                        sc = self.expr(mi["scrut"], env, depth)
+                        if self.decide_arm(mi, sc, env, depth) is None:
+                            envs = []
+                            for d in dead:
+                                ed = dict(env)
+                                self.bind_pat(d["pat"], sc, ed)
+                                self.conds.append((("arm", sc, hq.pat_key(d["pat"])), True))
+                                self.effect(d["body"], ed, depth)
+                                self.conds.pop()
+                                envs.append((hq.pat_key(d["pat"]), ed))
+                            a = live[0]
+                            e_live = dict(env)
+                            self.bind_pat(a["pat"], sc, e_live)
+                            # these conditions are implied by the order of the exits: kept for effects, dropped from later `returns`
+                            self.conds.append((("arm", sc, hq.pat_key(a["pat"])), True, "implied"))
+                            npush = 1
+                            if "guard" in a:
+                                self.conds.append((self.expr(a["guard"], e_live, depth), True, "implied"))
+                                npush = 2
+                            val = self.expr(a["body"], e_live, depth)
+                            self.bind_pat(s["pat"], val, e_live)
+                            v = self.seq(stmts[i + 1:], tail, e_live, depth, value)
+                            for _ in range(npush):
+                                self.conds.pop()
+                            self.merge(env, ("match", sc), [(hq.pat_key(a["pat"]), e_live)] + envs)
+                            for i_, t_ in e_live.items():
+                                env.setdefault(i_, t_)
+                            return v
             # `if C { ...; continue / break / return }` (no else): the rest of the block runs under not C
             x = s.get("e") if s["k"] not in ("LetStmt", "ItemStmt") else None
             xs = strip(x) if isinstance(x, dict) and x.get("k") in ("DropTemps", "Use") else x
@@ -312,7 +352,7 @@ class Eval:
             self.effect({"k": "Block", **e["body"]}, env, depth)
             return
         if k == "Ret":
-            self.returns.append((tuple(x for x in self.conds if x[0][:1] != ("survived",)), self.expr(e["e"], env, depth) if "e" in e else ("unit",)))
+            self.returns.append((tuple(x for x in self.conds if x[0][:1] != ("survived",) and len(x) == 2), self.expr(e["e"], env, depth) if "e" in e else ("unit",)))
             return
         # any other expression: evaluate for nested effects (e.g. closures are ignored)
         self.expr(e, env, depth)
@@ -321,7 +361,7 @@ class Eval:
         out = ()
         for pfx in self._prefix[1:]:
             out += tuple(pfx)
-        return out + tuple(self.conds)
+        return tuple(x[:2] for x in out + tuple(self.conds))
 
     def decide_arm(self, e, sc, env, depth):
         """the arm of match `e` taken for the scrutinee value sc, when sc is a literal constructor / literal / tuple of those; else None"""
@@ -565,7 +605,7 @@ class Eval:
             return ("index", self.expr(e["e"], env, depth), self.expr(e["idx"], env, depth))
         if k == "Ret":
             v = self.expr(e["e"], env, depth) if "e" in e else ("unit",)
-            self.returns.append((tuple(x for x in self.conds if x[0][:1] != ("survived",)), v))
+            self.returns.append((tuple(x for x in self.conds if x[0][:1] != ("survived",) and len(x) == 2), v))
             return ("never",)
         if k in ("Assign", "AssignOp", "Loop"):
             self.effect(e, env, depth)
@@ -655,7 +695,18 @@ class Eval:
             self.returns = saved
             self.loops.pop()
             return ("unit",)
-        args = [recv] + [self.expr(a, env, depth) for a in e["args"]]
+        if m in CLOSURE_LOOPS and self.effect_calls and e["args"] and all(strip(a).get("k") == "Closure" for a in e["args"]) and "Iterator::" in (callee_generic(e) or ""):
+            # effects recorded inside `it.map(|x| ..)` / filter / flat_map / inspect happen once per element of `it`
+            mark = len(self.out)
+            self.loops.append(recv)
+            args = [recv] + [self.expr(a, env, depth) for a in e["args"]]
+            self.loops.pop()
+            cl = args[1]
+            if cl[0] == "closure" and len(cl[1]) == 1 and "/" not in cl[1][0]:
+                for i_ in range(mark, len(self.out)):
+                    self.out[i_] = subst(self.out[i_], {cl[1][0]: ("each", recv)})
+        else:
+            args = [recv] + [self.expr(a, env, depth) for a in e["args"]]
         self._cur_env = env
         if m in MUTATORS:
             root = self.root_local(e["recv"])
@@ -736,27 +787,27 @@ class Eval:
         return ("call", name, tuple(args))
 
 
-def diverges(e):
-    """does control never fall out of the end of expression / block e (it ends in return / break / continue on every path)?"""
+def diverges(e, panics=True):
+    """does control never fall out of the end of expression / block e (it ends in return / break / continue - or a panic - on every path)?"""
     if not isinstance(e, dict):
         return False
     k = e.get("k")
     if k in ("DropTemps", "Use", "Type"):
-        return diverges(e["e"])
+        return diverges(e["e"], panics)
     if k in ("Ret", "Break", "Continue"):
         return True
     if k == "Block":
         if "mac_src" in e:
-            return e.get("mac") in ("panic", "unreachable", "todo", "unimplemented")
+            return panics and e.get("mac") in ("panic", "unreachable", "todo", "unimplemented")
         for st in e.get("stmts", []):
             x = st.get("e")
-            if st.get("k") != "LetStmt" and isinstance(x, dict) and diverges(x):
+            if st.get("k") != "LetStmt" and isinstance(x, dict) and diverges(x, panics):
                 return True
-        return "expr" in e and diverges(e["expr"])
+        return "expr" in e and diverges(e["expr"], panics)
     if k == "If":
-        return "else" in e and diverges(e["then"]) and diverges(e["else"])
+        return "else" in e and diverges(e["then"], panics) and diverges(e["else"], panics)
     if k == "Match" and e.get("src") == "Normal":
-        return bool(e["arms"]) and all(diverges(a["body"]) for a in e["arms"])
+        return bool(e["arms"]) and all(diverges(a["body"], panics) for a in e["arms"])
     return False
 
 
@@ -925,6 +976,18 @@ def subst(t, mapping):
         inner = {k: v for k, v in mapping.items() if k not in t[1] and not any(k in n.split("/") for n in t[1])}
         return ("closure", t[1], subst(t[2], inner))
     return tuple(subst(x, mapping) for x in t)
+
+
+def drop_never(t):
+    """a match of which exactly one arm yields a value (the others leave the function) is that value"""
+    if not isinstance(t, tuple):
+        return t
+    t = tuple(drop_never(x) for x in t)
+    if t[:1] == ("match",) and len(t) == 3 and isinstance(t[2], tuple) and t[2] and all(isinstance(a, tuple) and len(a) == 2 for a in t[2]):
+        live = [a for a in t[2] if a[1] != ("never",)]
+        if len(live) == 1 and len(t[2]) > 1:
+            return live[0][1]
+    return t
 
 
 def subterms(t):
